@@ -1121,7 +1121,9 @@ def _list_decorators() -> Dict[str, Callable[[_FN], _FN]]:
 
                 if step == 1:
                     if value is self:
-                        return
+                        if start == 0 and stop >= len(self):
+                            return
+                        value = list(value)
                     for i in range(start, stop, step):
                         if len(self) > start:
                             del self[start]
